@@ -24,6 +24,8 @@ func init() {
 			"(R14.3) the memory sizer's min/max do not depend on the capacity-from-max flag (non-interference over all syntactic paths) and decoded memories are validated against the limit; (R14.4) every host accessor that touches the buffer is dominated by the bounds check with exactly the access width; " +
 			"(R14.5) after every call the compiler re-reads memory base and length whenever the module has a non-shared memory (exhaustive evaluation of the guard over all flag assignments). (R14.6) a host accessor reports success only after its size check (no `return true` ahead of the guard); (R14.7) the Go side of memory.grow acts on the memory of the instance that executes the instruction, not on the entry instance's. NOT decided: contents after growth, allocator behaviour, the emitted machine code.",
 		Rules: []core.Rule{
+			{ID: "R14.8", Template: "T-CONSULT", Text: "a second memory import is refused (genuine defect found and fixed)", Min: 1},
+			{ID: "R14.9", Template: "T-WIDTH", Text: "the engines compare no address with the 32-bit MemoryInstance.Size() (genuine defect found and fixed: interpreter memory.atomic.notify)", Min: 1},
 			{ID: "R14.6", Template: "T-MUSTPASS", Text: "a host accessor reports success only after the size check", Min: 8},
 			{ID: "R14.7", Template: "T-SIBLING", Text: "the Go side of memory.grow (and the other instance-relative builtins) acts on the instance executing the instruction (same analysis as C04 R04.8)", Min: 1},
 			{ID: "R14.1", Template: "T-WIDTH", Text: "64-bit width discipline on buffer indices, buffer length and the compiled length slot", Min: 6},
@@ -34,6 +36,8 @@ func init() {
 		},
 		Run: runC14,
 		Controls: []core.Control{
+			{Name: "second-memory-import-overwrites", File: "internal/wasm/module.go", Old: "\t\t\tif memory != nil { // Imported and defined memories share one index space, which has at most one entry.\n\t\t\t\terr = errors.New(\"at most one memory allowed in module\")\n\t\t\t\treturn\n\t\t\t}\n", New: "", Rule: "R14.8", Substr: "memory import"},
+			{Name: "notify-bounds-by-size", File: "internal/engine/interpreter/interpreter.go", Old: "if uint64(offset) >= uint64(len(memoryInst.Buffer)) {", New: "if offset >= memoryInst.Size() {", Rule: "R14.9", Substr: "Size()"},
 			{Name: "write-empty-succeeds-anywhere", File: "internal/wasm/memory.go", Old: "func (m *MemoryInstance) Write(offset uint32, val []byte) bool {\n", New: "func (m *MemoryInstance) Write(offset uint32, val []byte) bool {\n\tif len(val) == 0 {\n\t\treturn true\n\t}\n", Rule: "R14.6", Substr: "Write "},
 			{Name: "grow-acts-on-entry-module", File: "internal/engine/wazevo/call_engine.go", Old: "\t\t\tmod := c.callerModuleInstance()\n\t\t\tmem := mod.MemoryInstance\n", New: "\t\t\tmem := c.parent.module.MemoryInstance\n", Rule: "R14.7", Substr: "calling instance"},
 			{Name: "accessor-32bit-slice-end", File: "internal/wasm/memory.go", Old: "m.Buffer[offset : uint64(offset)+4]", New: "m.Buffer[offset : offset+4]", Rule: "R14.1", Substr: "readUint32Le"},
@@ -69,6 +73,8 @@ func typeBits(t types.Type) int {
 }
 
 func runC14(c *core.Ctx) {
+	checkOneMemory(c)
+	checkNoSizeInEngineBounds(c)
 	checkSuccessAfterSizeCheck(c)
 	checkBuiltinsActOnCaller(c, "R14.7")
 	wp := c.Pkg("internal/wasm")
@@ -92,7 +98,17 @@ func runC14(c *core.Ctx) {
 		if !ok || len(rs.Results) != 1 {
 			return
 		}
-		be, ok := rs.Results[0].(*ast.BinaryExpr)
+		be, ok := ast.Unparen(rs.Results[0]).(*ast.BinaryExpr)
+		// the comparison may be conjoined with further conditions that only restrict it (e.g. a nil-receiver test)
+		for ok && be.Op == token.LAND {
+			if r, isB := ast.Unparen(be.Y).(*ast.BinaryExpr); isB && r.Op == token.LEQ {
+				be = r
+			} else if l, isB := ast.Unparen(be.X).(*ast.BinaryExpr); isB && (l.Op == token.LEQ || l.Op == token.LAND) {
+				be = l
+			} else {
+				ok = false
+			}
+		}
 		if !ok || be.Op != token.LEQ {
 			return
 		}
